@@ -57,6 +57,13 @@ func setupStatements() []string {
 	return qs
 }
 
+// showViaInfoSchema lists the SHOW statements that planbuilder implements as a SELECT over a
+// (shared) information_schema table object, whose catalog field buildResolvedTable assigns.
+var showViaInfoSchema = map[string]bool{
+	"SHOW PROCEDURE STATUS": true, "SHOW FUNCTION STATUS": true, "SHOW COLLATION LIKE 'utf8mb4_0900%'": true,
+	"SHOW ENGINES": true, "SHOW PLUGINS": true,
+}
+
 // stmt is one read-only statement of the pool.
 type stmt struct {
 	SQL      string
@@ -158,12 +165,22 @@ func genStmt(rt *rapid.T) stmt {
 		}},
 		{"call", []string{"t1"}, func() string { return fmt.Sprintf("CALL pr(%d)", ri(rt, 0, 13, "m")) }},
 		{"show", nil, func() string {
-			return rapid.SampledFrom([]string{
+			q := rapid.SampledFrom([]string{
 				"SHOW TABLES", "SHOW FULL TABLES", "SHOW DATABASES", "SHOW CREATE TABLE t1", "SHOW CREATE TABLE t2", "SHOW CREATE TABLE t4",
 				"SHOW COLUMNS FROM t2", "SHOW FULL COLUMNS FROM t1", "SHOW INDEXES FROM t1", "SHOW KEYS FROM t4", "SHOW CREATE VIEW v1",
 				"SHOW CREATE PROCEDURE pr", "SHOW PROCEDURE STATUS", "SHOW VARIABLES LIKE 'sql_mode'", "SHOW VARIABLES LIKE 'max_%'",
 				"SHOW TRIGGERS", "SHOW CHARSET", "SHOW COLLATION LIKE 'utf8mb4_0900%'", "SHOW ENGINES", "SHOW GRANTS", // not SHOW WARNINGS: it reports on the session's previous statement
+				"SHOW FUNCTION STATUS", "SHOW PLUGINS",
 			}).Draw(rt, "show")
+			if showViaInfoSchema[q] && excludeInfoSchema() {
+				// planbuilder turns these into a SELECT over an information_schema table
+				// (show.go: b.Parse("select ... from information_schema.<table>")): same region
+				if st := curStats; st != nil {
+					st.Excluded(knownInfoSchema)
+				}
+				q = "SHOW TABLES"
+			}
+			return q
 		}},
 		{"information_schema", nil, func() string {
 			return rapid.SampledFrom([]string{
